@@ -127,6 +127,9 @@ class Gen:
             # two-sided (or one-sided) clamp with values on both sides of the bounds
             t = tensor(dy_array(rng, shape, 0, 10, 4))
             lo, hi = rng.choice([(0.5, 1.75), (0.5, 1.75), (0.25, None), (None, 1.5)])
+            if o.get("strict"):
+                # gradients are compared: keep the (quarter-valued) entries off the kinks of the clamp
+                lo, hi = rng.choice([(0.625, 1.625), (0.625, 1.625), (0.375, None), (None, 1.375)])
             if o.get("monotone") and lo is None:
                 lo = 0.25
             return P.Parameter.from_unary(P.ClampParameter(shape, vmin=lo, vmax=hi), t)
